@@ -96,7 +96,9 @@ Definition factor_of (sm fc : parser) (ts : list tok) : res :=
 Fixpoint factor (f : nat) : parser :=
   match f with
   | O => fun _ => None
-  | S f' => factor_of (sum (factor f') f') (factor f')
+  | S f' => let fc := factor f' in factor_of (sum fc f') fc
+             (* [let]: under call-by-value evaluation (vm_compute) the parser with less fuel is
+                built once per level, not twice *)
   end.
 
 (* prefix parser and whole-list parser, fuel = number of tokens *)
